@@ -6,7 +6,7 @@ search : optional directed search run when an obligation broke and no slice prod
 CORE = ["Base", "Strings", "Num", "Builtins", "Interp", "Machine", "Spec"]
 REFINE = CORE + ["HeapFacts", "Refine1", "Refine2", "Refine3", "Refine4"]
 PROPS = {
- "C02": dict(needs=REFINE + ["FuelMono", "LinkStack"], gen=["GenStack"], slices=[("slices_core", "core_programs"), ("slices_core", "small_core"), ("slices_core", "spec_vs_machine")]),
+ "C02": dict(needs=REFINE + ["FuelMono", "LinkStack", "Scope"], gen=["GenStack"], slices=[("slices_core", "core_programs"), ("slices_core", "small_core"), ("slices_core", "spec_vs_machine")]),
  "C03": dict(needs=REFINE + ["RelA", "RelB", "RelC"], gen=[], slices=[("slices_lazy", "c03_bombs"), ("slices_core", "core_programs")]),
  "C05": dict(needs=REFINE + ["LinkStack", "Progress"], gen=["GenStack"], slices=[("slices_faults", "c05_ladders"), ("slices_core", "core_programs")]),
  "C07": dict(needs=REFINE + ["RunG", "Pure", "IOSpec"], gen=[], slices=[("slices_core", "io_trees")]),
@@ -22,7 +22,7 @@ PROPS = {
  "C12": dict(needs=CORE + ["SeqProofs", "SliceReal"], gen=[], slices=[("slices_values", "c12_seq")]),
  "C16": dict(needs=CORE + ["RunG", "Codec", "Bits", "Utf"], gen=[], slices=[("slices_values", "c16_codecs")]),
  "C17": dict(needs=CORE + ["RunG", "Codec", "Bits", "LinkBits", "Float", "RoundProofs"], gen=["GenBitwise"], slices=[("slices_values", "c17_bits")]),
- "C18": dict(needs=CORE + ["PrintInt"], gen=[], slices=[("slices_values", "c18_print"), ("slices_values", "c18_cli")]),
+ "C18": dict(needs=CORE + ["PrintInt", "PrintDict"], gen=[], slices=[("slices_values", "c18_print"), ("slices_values", "c18_cli")]),
  "C13": dict(needs=REFINE + ["RunG", "Exc", "Once"], gen=[], slices=[("slices_core", "c13_once"), ("slices_core", "core_programs")]),
  "C04": dict(needs=CORE + ["Events", "Progress", "NumProofs", "Lex", "ParseProofs", "LinkErr"], gen=["GenErr", "GenParse"], slices=[("slices_faults", "c04_sweep"), ("slices_world", "c14_faults"), ("slices_world", "c15_semantics"), ("slices_text", "c09_parse"), ("slices_core", "core_programs")]),
  "C20": dict(needs=CORE + ["FuelMono", "Isolation"], gen=["GenNondet"], slices=[("slices_world", "c20_isolation")]),
